@@ -88,3 +88,32 @@ package logx
 //@   requires r != nil
 //@   ensures [disabled] r.days <= 0 ==> result == nil && calls(Glob) == 0
 //@   ensures [boundary-from-now] calls(Format) == 1 ==> calls(time.Now) == 1 && arg(Format, 0) == ret(Add) && arg(Add, 0) == ret(time.Now) && arg(Add, 1) == 0 - 3600000000000 * (24 * r.days) && arg(Format, 1) == dateFormat
+
+// init (opening the log file): the size counter, which decides size-based rotation, starts from the size the
+// existing file already has (as reported by the Stat that found it); a newly created file leaves it untouched.
+//@ func (*RotateLogger).init
+//@   prop C19
+//@   requires l != nil
+//@   let existing = ret(os.Stat, 1, 1) == nil
+//@   ensures [existing-file-size-counted] existing && result == nil ==> calls(os.OpenFile) == 1 && calls(os.Create) == 0 && l.currentSize == ret(ret(os.Stat, 0, 1).Size)
+//@   ensures [new-file-starts-at-old-count] !existing && result == nil ==> calls(os.Create) == 1 && l.currentSize == old(l.currentSize)
+//@   ensures [backup-name-from-rule] l.backup == ret(l.rule.BackupFilename)
+
+// The size-limit rule stores the configured limits where ShallRotate / OutdatedFiles read them.
+//@ func NewSizeLimitRotateRule
+//@   prop C19
+//@   opaque getNowDateInRFC3339Format
+//@   let r = unbox(result, ptr(SizeLimitRotateRule))
+//@   ensures [limits-stored] typeis(result, ptr(SizeLimitRotateRule)) && r.maxSize == maxSize * 1048576 && r.maxBackups == maxBackups && r.days == days && r.gzip == gzip && r.filename == filename && r.delimiter == delimiter
+
+// createOutput: the configured limits reach the rule in their own positions (size limit as maxSize, backup count as
+// maxBackups) and the logger is opened on the configured path.
+//@ func createOutput
+//@   prop C19
+//@   opaque NewSizeLimitRotateRule
+//@   opaque DefaultRotateRule
+//@   opaque NewLogger
+//@   ensures [path-required] len(path) == 0 ==> result1 == ErrLogPathNotSet && calls(NewLogger) == 0
+//@   ensures [size-rule-gets-configured-limits] len(path) > 0 && options.rotationRule == "size" ==> calls(NewSizeLimitRotateRule) == 1 && arg(NewSizeLimitRotateRule, 0) == path && arg(NewSizeLimitRotateRule, 2) == options.keepDays && arg(NewSizeLimitRotateRule, 3) == options.maxSize && arg(NewSizeLimitRotateRule, 4) == options.maxBackups && arg(NewSizeLimitRotateRule, 5) == options.gzipEnabled
+//@   ensures [logger-on-path-with-rule] len(path) > 0 ==> calls(NewLogger) == 1 && arg(NewLogger, 0) == path && arg(NewLogger, 2) == options.gzipEnabled
+//@   ensures [size-rule-used] len(path) > 0 && options.rotationRule == "size" ==> arg(NewLogger, 1) == ret(NewSizeLimitRotateRule)
